@@ -307,11 +307,11 @@ impl Simplifier {
             // ## Exponentiation ##
 
             // Exponentiation with zero (0⁰ = 1)
-            (Expression::Number(x), InfixOperator::Caret, _) if is_zero(*x) => {
-                interned::number(ZERO)
-            }
             (_, InfixOperator::Caret, Expression::Number(y)) if is_zero(*y) => {
                 interned::number(ONE)
+            }
+            (Expression::Number(x), InfixOperator::Caret, _) if is_zero(*x) => {
+                interned::number(ZERO)
             }
 
             // Exponentiation with one
